@@ -40,6 +40,7 @@ type ldScenario struct {
 	Expiry     int      `json:"expiry"`     // 1 = ExpiryWriting(1h); the writer kind "advance" moves the clock by 2h
 	OutSeq     []string `json:"outseq"`     // outcome of the i-th loader run (script replay of LoadRace.tla behaviours); then Outcomes at random
 	HGate      int      `json:"hgate"`      // 1 = the atomic deletion handler is a gate ("h.atomic"): user code inside the table computation
+	Extra      int      `json:"extra"`      // 1 = the bulk loader fetches "the whole page": it also supplies the key of {1,2} it was not asked for
 }
 
 type ldEvent struct {
@@ -325,6 +326,15 @@ func runLoadScenario(sc ldScenario) ldResult {
 				note(ldEvent{T: "ldexit", Op: "BulkLoad", K: k, Err: "nf", Run: id})
 			default:
 				note(ldEvent{T: "ldexit", Op: "BulkLoad", K: k, Err: oc, Run: id})
+			}
+		}
+		if sc.Extra == 1 && oc == "val" {
+			for _, k := range []int{1, 2} {
+				if _, asked := m[k]; !asked {
+					v := 1000 + id*10 + k + 5
+					m[k] = v // volunteered: may be cached, is never handed to this run's caller
+					note(ldEvent{T: "ldexit", Op: "BulkLoad", K: k, V: v, Err: "vol", Run: id})
+				}
 			}
 		}
 		switch oc {
